@@ -11,6 +11,10 @@ Driver of the C11 model. Lines (tokens are numbers, `tf` = `tok:freq,tok:freq` o
   q <scored> <query>       -> ok set=<ids asc> rank=<ids in compare_scored_docs order> | err:notlimit
   topk <k> <scored>        -> <ids of top_k_results>
   cmp <id:bits> <id:bits>  -> lt | eq | gt
+  gq <toks csv>            -> what `term_general` predicts from the ghost state of the history (or n/a after a load)
+  gflags <toks csv>        -> cover=<all removes so far named the original tokens> vstale=<a live doc has a left-over entry under toks>
+  dq <query>               -> the live ids that satisfy the set-algebra reading `denote`
+  si <toks csv>            -> N=<n> total=<t> dup=<bool> | <tok>:<id>/<tf>/<len>+…  | …   (inputs of the scores of a term query)
   dreset | dobj <b> <g> <payload> | dmeta <version> <max_bucket> <manifest b:g,…>     durable state D
   wreset | wobj <b> <g> <payload> | wmeta <version> <max_bucket> <manifest> | wdel <b> <g>   writes W
   loadprefix <k>           -> contents of load_all(D + first k writes of W)
@@ -67,8 +71,31 @@ structure St where
   D : Durable
   ws : List Write
   cc : Bm25Conc.Cfg
+  /-- ghost state of the history so far (`Bm25.gstep`), valid until the index is replaced by a loaded one -/
+  g : Ghost
+  gvalid : Bool
+  cover : Bool
 
-def St.init : St := { ix := Index.empty, D := Durable.empty, ws := [], cc := { sh := Bm25Conc.Shared.init false, threads := [] } }
+def St.init : St :=
+  { ix := Index.empty, D := Durable.empty, ws := [], cc := { sh := Bm25Conc.Shared.init false, threads := [] },
+    g := Ghost.init, gvalid := true, cover := true }
+
+/-- the ghost follows every mutation line -/
+def ghostStep (st : St) (line : String) : St :=
+  match words line with
+  | ["ins", id, tf] =>
+      match id.toNat?, pairs? tf with
+      | some id, some tf => { st with g := gstep st.g (.insert id tf) }
+      | _, _ => st
+  | ["rem", id, tf] =>
+      match id.toNat?, pairs? tf with
+      | some id, some tf => { st with cover := st.cover && removeCovers st.g id tf, g := gstep st.g (.remove id tf) }
+      | _, _ => st
+  | ["purge", ids] =>
+      match natList? ids with
+      | some ids => { st with g := gstep st.g (.purge ids) }
+      | none => st
+  | _ => st
 
 def parsePosting (s : String) : Option (Nat × Entries) :=
   match s.splitOn "=" with
@@ -129,6 +156,15 @@ def stepIx (s : Index) (line : String) : Index × String :=
       match k.toNat?, scored? sc with
       | some k, some sc => (s, showNats ((topK sc k).map (·.1)))
       | _, _ => (s, "bad-op")
+  | ["si", toks] =>
+      match natList? toks with
+      | some toks =>
+          let (n, total, infos) := scoreInputs s toks
+          let dup := toks.any (fun t => match Bm25.get? s.postings t with | some es => hasDupEntries es | none => false)
+          let showInfo (p : Nat × List (Nat × Nat × Nat)) : String :=
+            s!"{p.1}:{"+".intercalate (p.2.map (fun x => s!"{x.1}/{x.2.1}/{x.2.2}"))}"
+          (s, s!"N={n} total={total} dup={dup} |{" |".intercalate (infos.map (fun p => " " ++ showInfo p))}")
+      | none => (s, "bad-op")
   | ["cmp", a, b] =>
       match scored? a, scored? b with
       | some [a], some [b] =>
@@ -237,7 +273,21 @@ def step (st : St) (line : String) : St × String :=
       | some k => (st, showLoaded (load (applyAll st.D (st.ws.take k))))
       | none => (st, "bad-op")
   | ["flushcheck"] =>
+      let puts := st.ws.filter (fun w => match w with | .putObj _ _ => true | _ => false)
+      let nonDel := st.ws.filter (fun w => match w with | .delObj _ => false | _ => true)
+      let arranged := match metaOf st.ws with
+        | some m => decide ((arrange Gen.Bm25Order.flushOrder puts m).length = nonDel.length)
+            && (putBuckets (arrange Gen.Bm25Order.flushOrder puts m) == putBuckets nonDel)
+            && (commitLen (arrange Gen.Bm25Order.flushOrder puts m) == commitLen st.ws)
+        | none => st.ws.isEmpty
+      -- the statement of `load_prefix_bm25`, evaluated on the observed writes
+      let lawOk := (List.range (st.ws.length + 1)).all (fun k =>
+        let l := load (applyAll st.D (st.ws.take k))
+        let r := if k < commitLen st.ws then load st.D else load (applyAll st.D st.ws)
+        l == r)
       if !(flushShape st.D st.ws && flushStrict st.D st.ws) then (st, "shape-violation")
+      else if !arranged then (st, "shape-violation:arrange")
+      else if !lawOk then (st, "prefix-law-violation")
       else
         let l := load (applyAll st.D st.ws)
         let a := s!"docs={showPairs (sortPairs l.docTokens)} terms={showVisible l}"
@@ -245,8 +295,24 @@ def step (st : St) (line : String) : St × String :=
         if a = b then (st, "ok") else (st, s!"snapshot-mismatch loaded[{a}] memory[{b}]")
   | ["adopt"] =>
       let l := load st.D
-      ({ st with ix := l }, showLoaded l)
-  | _ => let (ix, out) := stepIx st.ix line; ({ st with ix := ix }, out)
+      ({ st with ix := l, gvalid := false }, showLoaded l)
+  | ["gq", toks] =>
+      match natList? toks with
+      | some toks => (st, if st.gvalid then showNats (sortNats (ghostTermIds st.g st.ix.docIds toks)) else "n/a")
+      | none => (st, "bad-op")
+  | ["gflags", toks] =>
+      match natList? toks with
+      | some toks =>
+          (st, if st.gvalid then s!"cover={st.cover} vstale={ghostVisibleStale st.g st.ix.docIds toks}" else "n/a")
+      | none => (st, "bad-op")
+  | "dq" :: rest =>
+      match parseQ rest with
+      | some (q, []) => (st, showNats (sortNats (st.ix.docIds.filter (fun i => denote st.ix q i))))
+      | _ => (st, "bad-op")
+  | _ =>
+      let (ix, out) := stepIx st.ix line
+      let st' := ghostStep st line
+      ({ st' with ix := ix }, out)
 
 end AndaVerif.DrvC11
 
